@@ -166,7 +166,8 @@ CLAIMED["C14"] = dict(
          "axis length, with units and names exactly those computed from the caller's arguments (C14_pad_kept, C14_units_kept, "
          "C14_names_kept, C14_omitted_pixels); C14_setters — every later set_dim / set_dim_units / set_dim_name keeps this; "
          "C14_ramp_entry / C14_ramp_int / C14_none_int — entry i of an expanded pair is a+(b-a)*i (exactly the arithmetic ramp for "
-         "Python ints; 0..N-1 for an omitted entry); C14_stack — depth / rank / shape of stacks; C14_slice_calibrations — for every well-formed "
+         "Python ints; 0..N-1 for an omitted entry); C14_stack — depth / rank / shape of stacks; C14_label_index — with distinct labels the i-th label addresses slice i; "
+         "C14_labels_truncated — a label list longer than the depth is cut to the depth (surplus labels play no part); C14_slice_calibrations — for every well-formed "
          "stack and every label that occurs, ar[label] (get_slice, modelled) succeeds and returns the addressed slice as an Array over "
          "the remaining shape with exactly the stack's units, dim vectors, dim units and dim names.",
     note="Not modelled: how far an IEEE ramp is from the rational ramp (the property's 'arithmetic ramp' is checked with a "
